@@ -285,11 +285,19 @@ func (x *g) node(prefix, sp string, depth int, keys map[string]string) {
 			}
 			x.inner = append(x.inner, prefix+"/"+nm)
 			seen := map[string]bool{}
-			for e := 0; e < 1+r.Intn(3); e++ {
+			// few values per key, so that entries of a multi-key list share some of their keys
+			pools := map[string][]string{}
+			for _, k := range ks {
+				pools[k] = []string{pick(r, keyVals), pick(r, keyVals)}
+				if r.Intn(3) == 0 {
+					pools[k] = append(pools[k], pick(r, keyVals))
+				}
+			}
+			for e := 0; e < 1+r.Intn(4); e++ {
 				kv := map[string]string{}
 				txt := ""
 				for _, k := range ks {
-					kv[k] = pick(r, keyVals)
+					kv[k] = pick(r, pools[k])
 					txt += "[" + k + "=" + kv[k] + "]"
 				}
 				if seen[txt] {
